@@ -109,6 +109,10 @@ func c18Labels(s *specs.Spec) (labels []string, nontrivial bool) {
 	labels, hostile := stringClasses(s)
 	img := specImage(s)
 	nontrivial = hostile
+	if strings.HasPrefix(s.Version, "v") {
+		labels = append(labels, "version-with-leading-v")
+		nontrivial = true
+	}
 	if len(s.Annotations) > 0 {
 		labels = append(labels, "spec-annotations")
 		nontrivial = true
@@ -140,6 +144,9 @@ func TestC18Rapid(t *testing.T) {
 	rapid.Check(t, func(t *rapid.T) {
 		hostile := rapid.IntRange(0, 3).Draw(t, "hostileStrings") != 0
 		s := gen.Spec(t, "s", gen.SpecOpts{Edit: gen.EditOpts{Hostile: hostile}, MaxDevices: 3})
+		if rapid.IntRange(0, 7).Draw(t, "vPrefixedVersion") == 0 {
+			s.Version = "v" + s.Version // the library accepts a leading "v" on the declared version
+		}
 		msg, genBug := env.check(s)
 		if genBug {
 			t.Fatalf("VERIF-UNDECIDED generator precondition failed: %s\nSpec: %s", msg, clip(specImage(s), 2000))
